@@ -1,4 +1,5 @@
 import GoLucene.Proofs.SqlMeaning
+import GoLucene.Proofs.SqlText
 /-
   C03 — inline SQL selects exactly the rows the query means (the structure theorem).
 
@@ -14,10 +15,11 @@ import GoLucene.Proofs.SqlMeaning
   which the query is true; the predicate exists; and the text renderer succeeds on the tree.  The refutations
   (`need_*`) show each exclusion is necessary — they are the recorded findings, as theorems about the model.
 
-  NOT proved (PARTIAL): that PostgreSQL's grammar reads the rendered TEXT as exactly `toAst e`
-  (`Sql.parseSql (render pgFns e) = toAst e`).  That link is checked on every explored input by the executable
-  specification `SqlEval.specC03` (it parses the implementation's SQL with the grammar model and evaluates it on
-  probe rows) and by `decide` on two example trees below.
+  The link from the rendered TEXT to the predicate is `SqlText.render_parses` (PostgreSQL's scanner and grammar, as
+  modelled, read `render pgFns e` as exactly `toAst e`, for trees nested at most 2990 deep), so the end-to-end statement
+  `rendered_text_selects_what_the_query_means` below is about the SQL text itself.  What remains outside the theorem:
+  trees in the recorded finding classes (refuted, see `need_*`), and the fidelity of the PostgreSQL model itself
+  (validated against libpg_query; evaluation semantics as modelled).
 -/
 namespace GoLucene.C03
 open GoLucene.SqlMeaning
@@ -35,5 +37,11 @@ theorem sql_predicate_exists (e : Expr) (hc : cleanFilter e = true) : ∃ a, toA
 theorem render_succeeds (e : Expr) (hc : cleanFilter e = true) (ht : textClean e = true) :
     ∃ t, render pgFns e = .ok t :=
   toAst_renders e hc ht
+
+/-- END TO END: PostgreSQL's reading of the rendered SQL text is true on exactly the rows on which the query is true -/
+theorem rendered_text_selects_what_the_query_means (e : Expr) (t : Bytes) (hc : cleanFilter e = true)
+    (ht : textClean e = true) (hd : SqlText.depthOK e = true) (hr : render pgFns e = .ok t) (row : Row) :
+    (Sql.parseSql t).bind (evalSql row) = evalL row e :=
+  SqlText.rendered_sql_means_query' e t hc ht hd hr row
 
 end GoLucene.C03
